@@ -24,6 +24,7 @@ import pickle
 import random
 import shutil
 import tempfile
+import time
 from pathlib import Path
 
 from .. import build, fsx, pmap
@@ -60,9 +61,40 @@ def in_child(fn, timeout: float = 600):
             traceback.print_exc()
             os._exit(3)
     os.close(w)
-    with os.fdopen(r) as fh:
-        data = fh.read()
-    _, status = os.waitpid(pid, 0)
+    # Do not wait for EOF: a helper process the child started (a Manager server of a shared-memory storage, a pool worker)
+    # inherits the write end and may outlive the child.  Read while the child lives, then drain what is left.
+    import select
+    os.set_blocking(r, False)
+    chunks: list[bytes] = []
+    status = None
+    deadline = time.time() + timeout
+    while True:
+        ready, _, _ = select.select([r], [], [], 0.05)
+        if ready:
+            try:
+                b = os.read(r, 1 << 16)
+            except BlockingIOError:
+                b = None
+            if b:
+                chunks.append(b)
+                continue
+            if b == b"":          # every write end is closed
+                if status is None:
+                    _, status = os.waitpid(pid, 0)
+                break
+        if status is None:
+            done, st = os.waitpid(pid, os.WNOHANG)
+            if done:
+                status = st       # the child is gone: one more pass drains what it wrote before exiting
+                continue
+            if time.time() > deadline:
+                os.kill(pid, 9)
+                _, status = os.waitpid(pid, 0)
+                break
+        elif not ready:
+            break
+    os.close(r)
+    data = b"".join(chunks).decode()
     code = os.waitstatus_to_exitcode(status)
     return code, (json.loads(data) if data else None)
 
